@@ -328,7 +328,7 @@ class DiscreteSetFam(SeededFamily):
     rule = ('DiscreteSet over 10 member lists (single number, tuples of ints/floats/complex, duplicates, single '
             'MathArray, tuples of MathArrays, mixed numbers and arrays) and SpecificFunctions over 6 function lists; '
             'every answer of random.choice is enumerated; each sample must be one of the listed members (same '
-            'object, or equal value of the same type) and the listed arrays must be unchanged afterwards; '
+            'object, or equal value) and the listed arrays must be unchanged afterwards; '
             'non-trivial = more than one distinct member')
 
     def setup_more(self, tier):
@@ -365,15 +365,18 @@ class DiscreteSetFam(SeededFamily):
         return {'sampler': cls, 'members': label, 'repr': repr(members)[:200]}
 
     def same(self, a, b):
+        """the same object, or the same mathematical value (number == number, array == array entrywise)"""
         if a is b:
             return True
         if callable(a) or callable(b):
             return False
-        if type(a) is not type(b):
+        arr_a, arr_b = isinstance(a, np.ndarray), isinstance(b, np.ndarray)
+        if arr_a != arr_b:
             return False
-        if isinstance(a, np.ndarray):
-            return a.shape == b.shape and a.dtype == b.dtype and bool(np.all(np.asarray(a) == np.asarray(b)))
-        return a == b
+        if arr_a:
+            return (isinstance(a, self.MathArray) and a.shape == b.shape
+                    and bool(np.all(np.asarray(a) == np.asarray(b))))
+        return R.is_complex_scalar(a) and a == b
 
     def check(self, case):
         cls, label, members = self.table[case]
